@@ -204,4 +204,14 @@ theorem t_pipe_free_no_table (ext : IExt) (lx : LExt) (c : TCfg) (hnr : c.refere
   obtain ⟨g, hg, htg⟩ := ht
   exact hS g hg (init_noPipe src hnp) t htg
 
+/-! non-vacuity: the document of seeded change C10l — a delimiter-row-shaped line below text, then a list marker that may not interrupt a
+paragraph — with the table rule on: one paragraph of four lines, no table token -/
+example : C01.stateTypes (tParse { entity := fun _ => none, reformat := id, normText := id, html := false }
+      { hasRefs := false, normRef := id, storeLabels := false, refs := fun _ => none }
+      { code := true, fence := true, hr := true, heading := true, htmlBlock := true, lheading := false, html := false, reference := false,
+        inlineDefs := false, table := true } [32, 9, 10, 11, 12, 13] 20
+      "abc\ndef\n:-:\n2. item\n".toList)
+    = some (["paragraph_open", "inline", "paragraph_close"], 4) := by
+  decide +kernel
+
 end MdIt.C10
